@@ -2,7 +2,7 @@
    Only theorem statements closed by `exact`, each followed by Print Assumptions. *)
 From Coq Require Import List String Bool.
 From Coq Require Import Ascii.
-From C17 Require Import Model ProofsSort ProofsResolve ProofsOptions ProofsFlags ProofsValues.
+From C17 Require Import Model ProofsSort ProofsResolve ProofsOptions ProofsFlags ProofsValues ProofsDiscovery.
 From Gen Require Import Flags.
 Import ListNotations.
 Open Scope string_scope.
@@ -167,6 +167,16 @@ Theorem overrides_own_copy :
 Proof. exact ProofsValues.overrides_own_copy. Qed.
 Print Assumptions overrides_own_copy.
 
+(* config-file discovery: for every directory chain (cwd first, any length), every presence/validity state of
+   the candidates and every list of user files, _find_config_file returns the FIRST usable candidate of the
+   documented list: directory by directory up to and including the first one containing .git/.hg, in the
+   order CONFIG_NAMES ++ SHARED_CONFIG_NAMES, then USER_CONFIG_FILES.  (usable: exists, parses, and a shared
+   name -- pyproject.toml, setup.cfg -- has its mypy table/section; mypy.ini without [mypy] IS usable.) *)
+Theorem first_existing_config_wins : forall dirs user,
+    find_config_file dirs user = spec_find_config dirs user.
+Proof. exact ProofsDiscovery.first_existing_config_wins. Qed.
+Print Assumptions first_existing_config_wins.
+
 (* non-vacuity *)
 Example hypotheses_satisfiable : NoDup (map fst ex_pmo) /\ wf_names ex_pmo.
 Proof. exact ex_pmo_ok. Qed.
@@ -191,3 +201,15 @@ Proof.
 Qed.
 Example strict_example : sa_get the_strict_set "implicit_reexport" = Some false /\ sa_get the_strict_set "warn_return_any" = Some true.
 Proof. split; vm_compute; reflexivity. Qed.
+Example discovery_examples :
+  find_config_file [([(false, FAbsent); (false, FAbsent); (true, ini_no_section); (true, good)], false);
+                    ([(false, good); (false, FAbsent); (true, FAbsent); (true, FAbsent)], true)] [good]
+  = Some (InTree 0 3)
+  /\ find_config_file [([(false, FAbsent); (false, FAbsent); (true, ini_no_section); (true, FAbsent)], true);
+                       ([(false, good); (false, FAbsent); (true, FAbsent); (true, FAbsent)], false)] [FAbsent; good]
+     = Some (UserFile 1)
+  /\ find_config_file [([(false, ini_no_section); (false, good); (true, good); (true, good)], false)] [] = Some (InTree 0 0).
+Proof. exact ProofsDiscovery.discovery_examples. Qed.
+Example candidate_order : map fst candidate_names = ["mypy.ini"; ".mypy.ini"; "pyproject.toml"; "setup.cfg"]
+                          /\ map snd candidate_names = [false; false; true; true].
+Proof. split; reflexivity. Qed.
